@@ -34,6 +34,8 @@ type Interp struct {
 	memo map[any]any
 	MonitorOn bool
 	consts map[*ssa.Const]Value
+	natives map[*Obj]any
+	syncMaps map[*Obj]*syncMapModel
 	memoResults map[string]Value
 	MonitorMode int // 1: value-changing writes (C05); 2: any write (C06)
 	ids map[any]int64
@@ -41,6 +43,7 @@ type Interp struct {
 	builders map[*Obj]Str
 	Intrinsics map[string]Stub
 	Obligations, Discharged, Inconclusive int
+	InconclusiveMsgs []string
 	Reached  map[string]bool
 	Params   map[string]int
 	PanicsOK bool
@@ -55,6 +58,7 @@ func NewInterp(prog *ssa.Program, ctx *Ctx) *Interp {
 	in.installStubs()
 	in.installStubs2()
 	in.installStubs3()
+	in.installStubs4()
 	return in
 }
 
